@@ -46,6 +46,9 @@ let all_sizes tag args (f : n list -> pstate option pr) =
     done;
     !full
 
+let parse_levels s = if s = "-" then [] else
+  Stdlib.List.map (fun e -> match Stdlib.String.split_on_char ':' e with [t; g] -> (nd t, nd g) | _ -> (N0, N0)) (Stdlib.String.split_on_char ',' s)
+let parse_tdepths s = Stdlib.List.map z_of_dec (Stdlib.String.split_on_char ',' s)
 let strip_nul l = (* text up to the first NUL *)
   let rec go = function [] -> [] | N0 :: _ -> [] | x :: t -> x :: go t in go l
 
@@ -75,13 +78,38 @@ let () =
       let a = { ao_type = nd t; ao_total_memory = nd tot; ao_local_memory = nd loc; ao_csize = nd cs; ao_clinesize = nd cl; ao_cassoc = z_of_dec ca;
                 ao_bup = nd bu; ao_bdown = nd bd; ao_bdomain = nd bdom; ao_bsec = nd bsec; ao_bsub = nd bsub;
                 ao_pdomain = nd pdom; ao_pbus = nd pbus; ao_pdev = nd pdev; ao_pfunc = nd pfunc; ao_pvendor = nd pven; ao_pdevice = nd pdevid; ao_pclass = nd pcls;
-                ao_pclass_text = bytes_of_hex clstxt; ao_link_nonzero = link_nonzero; ao_link_text = bytes_of_hex linktxt;
+                ao_link_nonzero = link_nonzero; ao_link_text = bytes_of_hex linktxt;
                 ao_infos = (let ps = pairs rest in Stdlib.List.filteri (fun i _ -> i < int_of_string ninfo) ps) } in
       let args = Stdlib.String.sub l 4 (Stdlib.String.length l - 4) in
       ignore (all_sizes "asn" args (fun init -> attr_snprintf init a (bytes_of_hex sep) (nd flags)))
     | [("ssc" | "ssc!"); hex; asz] ->
       let a = int_of_string asz in
       Printf.printf "ssc %s %s -> %s\n" hex asz (sscanf_result (bytes_of_hex hex) (if a < 0 then None else Some (n_of_int a)))
+    | ["clsweep"; lo; hi] ->
+      for id = int_of_string lo to int_of_string hi - 1 do
+        let a = { ao_type = nd "17"; ao_total_memory = N0; ao_local_memory = N0; ao_csize = N0; ao_clinesize = N0; ao_cassoc = Z0;
+                  ao_bup = N0; ao_bdown = N0; ao_bdomain = N0; ao_bsec = N0; ao_bsub = N0;
+                  ao_pdomain = N0; ao_pbus = N0; ao_pdev = N0; ao_pfunc = N0; ao_pvendor = N0; ao_pdevice = N0; ao_pclass = n_of_int id;
+                  ao_link_nonzero = false; ao_link_text = []; ao_infos = [] } in
+        (match attr_snprintf (Stdlib.List.init 256 (fun _ -> n_of_int 0xaa)) a [n_of_int 32] (n_of_int 8) with
+         | PrOk (Some st) -> Printf.printf "cls %d %s\n" id (hex_of_bytes (strip_nul st.ps_buf))
+         | _ -> Printf.printf "cls %d ?\n" id)
+      done
+    | ["tier"; hex] ->
+      (match tier_forced_subtype (bytes_of_hex hex @ [N0]) with
+       | Ok (Some n) -> Printf.printf "tier %s -> %s\n" hex (hex_of_bytes (lit n))
+       | Ok None -> Printf.printf "tier %s -> NULL\n" hex
+       | Oob -> Printf.printf "tier %s -> OOB\n" hex)
+    | ["sad"; src; levels; tdepths; hex] ->
+      let lv = parse_levels levels and td = parse_tdepths tdepths in
+      (match type_sscanf_as_depth_cur lv td (bytes_of_hex hex @ [N0]) with
+       | Oob -> Printf.printf "sad %s %s -> OOB\n" src hex
+       | Ok None -> Printf.printf "sad %s %s -> -1\n" src hex
+       | Ok (Some (t, d)) -> Printf.printf "sad %s %s -> 0 type=%d depth=%s\n" src hex (int_of_n t) (dec_of_z d))
+    | ["gtd"; src; levels; tdepths; t; gd; asz] ->
+      let lv = parse_levels levels and td = parse_tdepths tdepths in
+      let d = get_type_depth_with_attr lv td (nd t) (if gd = "-" then None else Some (nd gd)) (nd asz) in
+      Printf.printf "gtd %s %s %s %s -> %s\n" src t gd asz (dec_of_z d)
     | ["tstr"; a] ->
       let s = lit (obj_type_string (n_of_int (int_of_string a))) in
       Printf.printf "tstr %s %s rt %s\n" a (hex_of_bytes s) (sscanf_result s (Some attr_union_size))
